@@ -135,7 +135,10 @@ def check_args(rep, proj):
     conv_fx = proj.func("yadism.esf.tmc", "EvaluatedStructureFunctionTMC._convolve_FX")
     rsl_calls = [n for n in ast.walk(conv_fx.node) if isinstance(n, ast.Call) and ast.unparse(n.func) == "RSL"]
     if not rsl_calls:
-        raise AnalysisError("C18.args: RSL construction in _convolve_FX vanished")
+        # the construction may have moved into a helper of the TMC module: any RSL(...) built there from a kernel handed in as a value
+        rsl_calls = [n for n in ast.walk(tmc.tree) if isinstance(n, ast.Call) and ast.unparse(n.func).split(".")[-1] == "RSL"]
+    if not rsl_calls:
+        raise AnalysisError("C18.args: RSL construction of the TMC integrals vanished from yadism.esf.tmc")
     site_supply = None
     for c in rsl_calls:
         for kw in c.keywords:
